@@ -185,7 +185,9 @@ func keptEffects(p *Prog, info *types.Info, n ast.Node) []string {
 	}
 	switch s := n.(type) {
 	case *ast.DeferStmt:
-		callKey("defer ", s.Call)
+		// a deferred call that is registered on every successful path runs on every successful path: same effect as the
+		// plain call (`mu.Lock(); defer mu.Unlock()` ⇔ explicit unlocks before every return)
+		callKey("", s.Call)
 		for _, a := range s.Call.Args {
 			for _, c2 := range callsIn(a) {
 				callKey("", c2)
@@ -380,6 +382,15 @@ func keptEffectsSeen(c *Check, fis []*FuncInfo) {
 				continue
 			}
 			pts := occ[e]
+			if len(pts) == 0 {
+				// performed one call down now? A function of the server that this function calls performs the effect on every
+				// one of its own successful paths (delegation to an existing function: NewDispenser → NewDispenserTokens)
+				pts = keptDelegated(c, r, fi, e)
+			}
+			if len(pts) == 0 && strings.HasPrefix(e, "call:") && keptCalleeGone(p, e) {
+				c.Except("E5 " + key + ": the called function no longer exists in the tree (merged into its callers); nothing to compare")
+				continue
+			}
 			if len(pts) == 0 {
 				c.Hold("E5", key, fi.Decl.Pos(), false, "the function no longer performs `"+e+"`, which every successful path performed in the reference tree")
 				continue
@@ -764,4 +775,68 @@ func recvPrefix(fi *FuncInfo) string {
 		return rn + "."
 	}
 	return ""
+}
+
+// keptDelegated: call points of fi whose callee (a function of the server, with a body) performs effect e on every one
+// of its own successful paths.
+func keptDelegated(c *Check, r *RuleCtx, fi *FuncInfo, e string) []Pt {
+	p := c.P
+	var out []Pt
+	for _, pt := range r.F.Points() {
+		n := pt.Node()
+		if n == nil {
+			continue
+		}
+		for _, call := range callsAt(n) {
+			fn := calleeFn(r.Info, call)
+			if fn == nil || fn == fi.Obj || fn.Pkg() == nil || !isServerPkg(fn.Pkg().Path()) {
+				continue
+			}
+			d := p.DeclOf(fn)
+			if d == nil || d.Decl.Body == nil {
+				continue
+			}
+			ok := false
+			func() {
+				defer func() { _ = recover() }()
+				must, _, _ := keptMustPass(c, d)
+				for _, m := range must {
+					if m == e {
+						ok = true
+					}
+				}
+			}()
+			if ok {
+				out = append(out, pt)
+			}
+		}
+	}
+	return out
+}
+
+// keptCalleeGone: the effect is a call of a maddy function that the analysed tree does not have any more.
+func keptCalleeGone(p *Prog, e string) bool {
+	q := strings.TrimPrefix(e, "call:")
+	if strings.Contains(q, "github.com/") || !strings.Contains(q, "/") {
+		return false
+	}
+	// "rel/path.Recv.Name" or "rel/path.Name"
+	i := strings.LastIndex(q, "/")
+	rest := q[i+1:]
+	parts := strings.Split(rest, ".")
+	rel := q[:i+1] + parts[0]
+	pk := p.Pkg(rel)
+	if pk == nil {
+		return false
+	}
+	recv, name := "", ""
+	switch len(parts) {
+	case 2:
+		name = parts[1]
+	case 3:
+		recv, name = parts[1], parts[2]
+	default:
+		return false
+	}
+	return p.Func(rel, recv, name) == nil
 }
